@@ -66,13 +66,17 @@ def run_worlds(ctx, n, intermediate_private):
                 wrong_prefix = [l for l, _ in labs if not l.lower().startswith(prefix)]
                 if wrong_prefix:
                     ctx.report("C12:prefix", "completion for '%s' offers %s" % (prefix, wrong_prefix[:3]), {"kind": "counterexample", "input": inp, "implementation": wrong_prefix})
-                if missing or extra:
+                # the two known root causes (shared with C05) are told apart per name: a missing renamed name reached through a USE diamond,
+                # an extra name leaking through an intermediate module with default PRIVATE
+                for part, names in (("missing", missing), ("extra", extra)):
+                    if not names:
+                        continue
                     sig = "C12:candidates"
-                    if missing and all(c05.rename_lost_diamond(w, si, nm, w.lookup(si, nm), None) for nm in missing) and not extra:
+                    if part == "missing" and all(c05.rename_lost_diamond(w, si, nm, w.lookup(si, nm), None) for nm in names):
                         sig = "C12:rename-lost-diamond"
-                    elif intermediate_private and c05.reexport_private_involved(w, si, None) and not missing:
+                    elif part == "extra" and intermediate_private and c05.reexport_private_involved(w, si, None):
                         sig = "C12:private-reexport"
-                    ctx.report(sig, "completion for '%s' misses %s and offers inaccessible %s" % (prefix, missing, extra),
+                    ctx.report(sig, "completion for '%s' %s" % (prefix, ("misses %s" % names) if part == "missing" else ("offers inaccessible %s" % names)),
                                {"kind": "counterexample", "input": inp, "implementation": got_pool, "oracle": want})
                 # model correspondence on the user-declared labels
                 chain = [w.prog] if si == w.prog else [w.prog, w.sub]
